@@ -107,6 +107,7 @@ class DiameterAssociation(object):
         self.postprocess_recv_messages_ready = threading.Event()
         self.postprocess_recv_messages_lock = threading.Lock()
         self.lock = threading.Lock()
+        self._recv_partial_stream = b""
 
 
     def is_connected(self) -> bool:
@@ -173,9 +174,14 @@ class DiameterAssociation(object):
             if self.transport is None:
                 break
 
-            data_stream = copy.copy(self.transport._recv_data_stream)
-            self.transport._recv_data_stream = b""
-            self.transport._recv_data_available.clear()
+            transport = self.transport
+            transport.lock.acquire()
+            data_stream = self._recv_partial_stream + transport._recv_data_stream
+            transport._recv_data_stream = b""
+            transport._recv_data_available.clear()
+            transport.lock.release()
+
+            data_stream, self._recv_partial_stream = self.split_data_stream(data_stream)
 
             diameter_conn_logger.debug("Grabbing data stream from "\
                                        "Transport Layer to Diameter Layer.")
@@ -194,6 +200,24 @@ class DiameterAssociation(object):
                                                f"{data_stream.hex()}")
             finally:
                 self.lock.release()
+
+
+    @staticmethod
+    def split_data_stream(stream: bytes) -> tuple:
+        #: Splits the received stream into the longest prefix made of complete
+        #: Diameter Messages and the remaining bytes of a partial one.
+        index = 0
+        while len(stream) - index >= 20:
+            length = int.from_bytes(stream[index+1:index+4], byteorder="big")
+            if length < 20 or len(stream) - index < length:
+                break
+            index += length
+
+        if len(stream) - index >= 20 and \
+                int.from_bytes(stream[index+1:index+4], byteorder="big") < 20:
+            return stream, b""
+
+        return stream[:index], stream[index:]
 
 
     def put_message_into_send_queue(self, msg: Type[DiameterMessage]) -> None:
